@@ -1,7 +1,7 @@
 (* C14 — the UI never crashes or hangs and always leaves terminal and system clean (PARTIAL: the logic core).
    Statements only; proofs live in proofs/TermProofs.v.  What is NOT here: panic- and hang-freedom of the real
    renderer / key decoder (explored by the check, not proved). *)
-From Fzf Require Import Prelude TermSpec TermModel TermProofs.
+From Fzf Require Import Prelude TermSpec TermModel TermProofs StartSpec StartModel StartProofs.
 Open Scope Z_scope.
 
 (* For EVERY configuration (fullscreen or --height, --no-clear, --no-mouse, --no-input, any window height,
@@ -93,6 +93,50 @@ Theorem proxy_live_files : forall e, pe_out_ok e = true -> pe_builder_ok e = tru
 Proof. exact proxy_live_files_proof. Qed.
 Print Assumptions proxy_live_files.
 
+(* ---- commands that cannot be started (src/reader.go readFromCommand / ReadSource / restart, src/core.go Run).
+   core.go starts every source of the list with `go reader.X(..., readyChan); <-readyChan`; while the coordinator sits
+   there no search result, no reload and no exit request is processed.  handshake_okb (spec/StartSpec.v) is the
+   contract of one reader run: exactly one send when somebody waits, nothing of unbounded duration before it, the
+   mutex released, the end of input announced once.  The model of fzf's reader meets it on EVERY path -- the command
+   starts or cannot be started (shell missing / not executable, command line over the kernel's limit), it succeeds or
+   fails, every source of ReadSource, with and without a waiting coordinator (--filter): *)
+Theorem reader_handshake :
+  (forall c, handshake_okb true (restart_trace c) = true) /\
+  (forall s ready c walk_ok, handshake_okb ready (read_source s ready c walk_ok) = true).
+Proof. split; [exact restart_handshake_proof | exact read_source_handshake_proof]. Qed.
+Print Assumptions reader_handshake.
+
+(* ... and the contract is enough: for EVERY reader that meets it and EVERY history of events the coordinator sees
+   (reload requests whose commands start or not, in any order and number, while a previous load is running or not,
+   end-of-input notifications, exit requests) the coordinator (model of the Run loop) is never stuck in `<-readyChan`
+   or in reader.terminate(), no reader goroutine is left blocked, and an exit request is processed wherever it
+   occurs in the history. *)
+Theorem coordinator_never_blocks : forall rd, (forall c, handshake_okb true (rd c) = true) ->
+  forall es, let st := c_run rd c0 es in c_blocked st = false /\ c_held st = false /\ c_leaked st = 0%nat.
+Proof. exact coordinator_never_blocks_proof. Qed.
+Print Assumptions coordinator_never_blocks.
+
+Theorem quit_is_processed : forall rd, (forall c, handshake_okb true (rd c) = true) ->
+  forall es1 es2, c_stop (c_run rd c0 (es1 ++ CQuit :: es2)) = true.
+Proof. exact quit_is_processed_proof. Qed.
+Print Assumptions quit_is_processed.
+
+(* what the check can see of a real reader run (values received on readyChan, the goroutine ends, EvtReadFin posted,
+   reader.terminate() returns) is determined by the contract: this is the spec evaluated on the hook's output *)
+Theorem handshake_observation : forall ready tr, handshake_okb ready tr = true ->
+  observation_okb ready (observation ready tr) = true.
+Proof. exact handshake_observation_proof. Qed.
+Print Assumptions handshake_observation.
+
+(* the contract is needed: a reader that forgets the send on the cannot-be-started path freezes the coordinator at the
+   first such reload and the exit request that follows is never processed (fzf's own reader processes it) *)
+Theorem coordinator_needs_handshake :
+  exists es, In CQuit es /\
+    c_blocked (c_run restart_trace_nosend c0 es) = true /\ c_stop (c_run restart_trace_nosend c0 es) = false /\
+    c_stop (c_run restart_trace c0 es) = true.
+Proof. exact coordinator_needs_handshake_proof. Qed.
+Print Assumptions coordinator_needs_handshake.
+
 (* ---- non-vacuity *)
 (* a real frame (cursor motion, colours, text, an OSC 8 hyperlink) is accepted by lop_ok; a --height --no-clear session
    with mouse that draws, hides the cursor, runs `execute`, comes back from ctrl-z and closes while the cursor is
@@ -125,4 +169,20 @@ Example c14_nonvacuous_proxy :
   let e := mkPenv false true true true 126 true true true in
   penv_consistent e /\ pr_live (run_proxy e) = [PFOut; PFIn; PFScript] /\ pr_exec (run_proxy e) = true /\
   pr_left (run_proxy e) = [] /\ pr_code (run_proxy (mkPenv true true true true 130 true false true)) = 130.
+Proof. vm_compute. repeat split; reflexivity. Qed.
+
+(* a reload that cannot be started, one that fails, one that works, then the exit request: fzf's reader meets the
+   contract on the failing path (the trace is not empty, has its send and its end-of-input event with the command),
+   nothing blocks and the process stops; the same history freezes a reader without the send *)
+Example c14_nonvacuous_start :
+  let bad := mkCmd false false in
+  let es := [CReadFin; CSearchNew (Some bad); CReadFin; CSearchNew (Some (mkCmd true false)); CSearchNew (Some (mkCmd true true));
+             CReadFin; CReadFin; CQuit] in
+  restart_trace bad = [RLock; RSend; RUnlock; RFin true; RRemove] /\
+  handshake_okb true (restart_trace bad) = true /\ handshake_okb true (restart_trace_nosend bad) = false /\
+  handshake_okb true [RLock; RUnlock; RFeed; RSend; RFin false] = false /\
+  handshake_okb true [RLock; RSend; RSend; RUnlock; RFin true] = false /\
+  c_stop (c_run restart_trace c0 es) = true /\ c_blocked (c_run restart_trace_nosend c0 es) = true /\
+  observation true (restart_trace bad) = [1; 1; 1; 1] /\ observation true (restart_trace_nosend bad) = [0; 1; 1; 1] /\
+  observation_okb true (observation true (restart_trace_nosend bad)) = false.
 Proof. vm_compute. repeat split; reflexivity. Qed.
